@@ -947,7 +947,8 @@ class LangServer:
             param_num = opt_num
         signature = {"label": label, "parameters": params}
         if doc_str is not None:
-            doc_str = doc_str.format(langid=self.hover_language)
+            # NOTE: not str.format(), the documentation can contain braces
+            doc_str = doc_str.replace("{langid}", self.hover_language)
             signature["documentation"] = {"kind": "markdown", "value": doc_str}
         req_dict = {"signatures": [signature], "activeParameter": param_num}
         return req_dict
